@@ -14,4 +14,15 @@ def match(prop, case, why, findings):
     return None
 
 
-MATCHERS = {}
+import re
+
+
+def _c19_f1(case, why, f):
+    """C19/F1: the documented un-memoised enumeration: the implementation performs exactly as many
+    signature verifications as the model's exhaustive search (count == model count) and that number
+    exceeds n^2. More verifications than the model's count is a different violation (C19-excess)."""
+    m = re.search(r"C19-bound impl=(\d+) model=(\d+) n=(\d+)", why)
+    return bool(m) and m.group(1) == m.group(2)
+
+
+MATCHERS = {"C19/F1": _c19_f1}
